@@ -99,6 +99,7 @@ package binary
 //@   ghostvar dropped bool = false
 //@   at line "lbls := vectorSeries[i]" set dropped = false
 //@   after function.DropMetricName set dropped = true
+//@   at function.DropMetricName assert[C05,C17] the-operands-label-set-is-copied-before-it-is-edited: isnil($l) || $l.lowned
 //@   at line "series[i] = lbls" assert[C05] name-dropped-iff-arithmetic-or-bool: dropped == (!o.opType.IsComparisonOperator() || o.returnBool)
 //@   ensures[C15] series-error-surfaces: callres("model.VectorOperator.Series", 1, 1) != nil ==> result != nil
 //@   ensures[C05,C18] one-label-set-per-input-series: result == nil ==> len(o.series) == len(callres("model.VectorOperator.Series", 1, 0))
